@@ -1,8 +1,7 @@
 (* Driver for the extracted worker model (Model/Wrk.v).  One case per stdin line, one trace per
    stdout line; the text format is documented in harness/h_worker/src/main.rs.
    usage: driver <mode>
-     wrk      case -> trace ## diag            (c_ovf = true: the harness is built with overflow checks)
-     wrkwrap  case -> trace ## diag            (c_ovf = false: plain release arithmetic)
+     wrk      case -> trace ## diag
      mon07    case <TAB> trace -> ok | names of the C07 predicates that are false on that trace
      join     join_all history -> polls and result (Model/SrvStop.v join_poll / join_results) *)
 open Gen
@@ -25,7 +24,7 @@ let int_of s = match int_of_string_opt s with Some n when n >= 0 -> n | _ -> rai
 let tail s = String.sub s 1 (String.length s - 1)
 let chars s = List.init (String.length s) (String.get s)
 
-let parse_cfg ovf s =
+let parse_cfg s =
   let lim = ref None and tmo = ref None and svcs = ref None in
   List.iter (fun kv ->
     let (k, v) = split_once '=' kv in
@@ -42,12 +41,12 @@ let parse_cfg ovf s =
   match !lim, !tmo, !svcs with
   | Some l, Some t, Some sv ->
       if List.length sv > 64 then raise Bad;
-      { c_limit = z_of_int l; c_timeout = z_of_int t; c_ovf = ovf; c_svcs = sv }
+      { c_limit = z_of_int l; c_timeout = z_of_int t; c_svcs = sv }
   | _ -> raise Bad
 
 let parse_op t =
   match t with
-  | "i" -> AcceptInc | "sg" -> PushStop true | "sf" -> PushStop false | "p" -> PollW | "x" -> CloseConn
+  | "i" -> AcceptInc | "sg" -> PushStop true | "sf" -> PushStop false | "p" -> PollW | "x" -> CloseConn | "y" -> CloseStop
   | _ ->
     if t = "" then raise Bad else
     match t.[0] with
@@ -56,15 +55,15 @@ let parse_op t =
     | 'a' -> Advance (z_of_int (int_of (tail t)))
     | _ -> raise Bad
 
-let parse_case ovf line =
+let parse_case line =
   let (c, o) = split_once ';' line in
   let ops = List.filter (fun t -> t <> "") (String.split_on_char ' ' o) in
-  (parse_cfg ovf c, List.map parse_op ops)
+  (parse_cfg c, List.map parse_op ops)
 
 (* ---- printing ---- *)
 let rdy_c = function RPend -> 'P' | ROk -> 'O' | RErr -> 'E'
 let crt_c = function CPend -> 'p' | COk -> 'o' | CErr -> 'e'
-let pk_s = function PRestart -> "restart" | POverflow -> "overflow" | PIndex -> "index" | PFuel -> "fuel"
+let pk_s = function PRestart -> "restart" | PIndex -> "index" | PFuel -> "fuel"
 
 let show_seg (l : obs list) =
   let main = List.filter_map (function
@@ -95,9 +94,9 @@ let show_diag ((w, cnt), q) =
   | WPanicked -> "panicked"
   | _ -> Printf.sprintf "%s:%d:%d" (ws_s w) (int_of_z cnt) (int_of_nat q)
 
-let wrk ovf line =
+let wrk line =
   try
-    let (c, ops) = parse_case ovf line in
+    let (c, ops) = parse_case line in
     String.concat "|" (List.map show_seg (trace c ops)) ^ " ## " ^ String.concat "|" (List.map show_diag (diag c (init c) ops))
   with Bad -> "BADCASE"
 
@@ -119,7 +118,7 @@ let parse_ev t : obs list =
       let k = int_of (String.sub body 0 (n - 1)) in
       [PollCreate (nat_of_int k, (match body.[n-1] with 'p' -> CPend | 'o' -> COk | 'e' -> CErr | _ -> raise Bad))]
   | 'D' -> if body = "" then [Done] else raise Bad
-  | '!' -> [Panic (match body with "restart" -> PRestart | "overflow" -> POverflow | "index" -> PIndex | _ -> PFuel)]
+  | '!' -> [Panic (match body with "restart" -> PRestart | "index" -> PIndex | _ -> PFuel)]
   | 'W' -> List.init (int_of body) (fun _ -> Wake)
   | 'A' ->
       let n = String.length body in
@@ -137,7 +136,7 @@ let parse_trace s : obs list list =
 let mon07 line =
   try
     let (case, tr) = split_once '\t' line in
-    let (c, ops) = parse_case true case in
+    let (c, ops) = parse_case case in
     let tr = parse_trace tr in
     let n = nat_of_int (List.length c.c_svcs) in
     let bad = (if c07_car_ok n tr then [] else ["car"]) @ (if c07_restart_ok tr then [] else ["restart"])
@@ -182,7 +181,7 @@ let join line =
 
 let () =
   let f = match Sys.argv.(1) with
-    | "wrk" -> wrk true | "wrkwrap" -> wrk false | "mon07" -> mon07 | "join" -> join
+    | "wrk" -> wrk | "mon07" -> mon07 | "join" -> join
     | m -> failwith ("unknown mode " ^ m) in
   try while true do
     let line = input_line stdin in
